@@ -115,8 +115,10 @@ def judge(ctx, recs, label=None):
     r = ctx.tlc("Trace_DER", "DER_judge.cfg", timeout=3000, label=label or "Trace_DER[%d obs]" % len(recs))
     if r.distinct != max(1, len(recs)):
         raise Machinery("Trace_DER visited %d states for %d observations" % (r.distinct, len(recs)))
-    return sorted((int(m.group(1)), m.group(2), m.group(3))
-                  for m in re.finditer(r'<<"REJECT", (\d+), "([^"]*)", "([^"]*)">>', r.out))
+    try:
+        return derlib.rejects(r.out, 2)
+    except ValueError as e:
+        raise Machinery(str(e))
 
 
 def obs_sig(r, got, why):
@@ -156,6 +158,8 @@ def selftest(ctx, recs):
 
 
 def replay(ctx, path):
+    import os
+    path = os.path.abspath(path)
     binary = ctx.gobuild("c19")
     body = json.load(open(path))
     if body.get("case", {}).get("obs"):
